@@ -56,7 +56,7 @@ ASSUMPTIONS = [
 CONVERGE = 24
 TX_BOUND = 24
 BOUNDS = "BMC from reset; control inputs free every cycle (layers: constant / free), DIR/NXT free within contract + " \
-         "fairness; quick K=28 (26 fully free), thorough K=40 (38 fully free)"
+         "fairness; quick K=28 (26 fully free, 32 convergence-only), thorough K=40 (38 fully free, 44 convergence-only)"
 OUTSIDE = "unbounded liveness (only the stated cycle bounds); extra registers (add_extra_register); PHYs slower than " \
           "the fairness bound; register reads; K beyond the bounds"
 
@@ -258,6 +258,9 @@ def queries(tier):
               desc="layer: control inputs constant (symbolic), transmit side free: start-up writes against transmissions"),
         Query("bmc_changes", f_free_notx, K, covers=["change_in_flight"], timeout=900,
               desc="layer: control inputs free every cycle, no transmission"),
+        Query("bmc_changes_converge", f_free_notx, K + 4, asserts=["converge"], covers=[], timeout=900,
+              desc="layer: as bmc_changes, deeper, convergence assertion only (a change in flight at step >= 4 plus the "
+                   "24-cycle convergence bound)"),
         Query("bmc_free", f_free, K - 2, covers=["write_after_tx"], timeout=900,
               desc="control inputs free every cycle, transmit side free, DIR/NXT free within contract and fairness"),
         Query("cosim", f_free, 0, kind="cosim", cosim_cycles=300 if quick else 2000),
